@@ -5,7 +5,11 @@ package websocket
 // native replay, where inputs come from the recorded solver model.
 
 import (
+	"crypto/sha1"
+	"encoding/base64"
 	"fmt"
+	"net/url"
+	"path/filepath"
 	"runtime"
 	"strings"
 	"time"
@@ -45,6 +49,65 @@ func vNext(tag string) uint64 {
 	}
 	vReplayShort = true
 	return 0
+}
+
+var vReplayStrs = map[string][]string{}
+var vReplayStrPos = map[string]int{}
+
+func vResetStrs(strs map[string][]string) {
+	vReplayStrs = strs
+	vReplayStrPos = map[string]int{}
+}
+
+// vString is an arbitrary (ASCII) string of any length: an SMT string variable in the engine.
+func vString(tag string) string {
+	i := vReplayStrPos[tag]
+	vReplayStrPos[tag] = i + 1
+	if vs := vReplayStrs[tag]; i < len(vs) {
+		return vs[i]
+	}
+	vReplayShort = true
+	return ""
+}
+
+// vUFStr / vUFBool apply, on the reference side, the function that the engine leaves uninterpreted for a stubbed
+// standard-library function; natively they are the real functions.
+func vUFStr(name string, s string) string {
+	switch name {
+	case "sha1":
+		h := sha1.Sum([]byte(s))
+		return string(h[:])
+	case "b64":
+		return base64.StdEncoding.EncodeToString([]byte(s))
+	case "urlHost":
+		u, err := url.Parse(s)
+		if err != nil {
+			return ""
+		}
+		return u.Host
+	}
+	panic("vUFStr: unknown function " + name)
+}
+
+func vUFBool(name string, args ...string) bool {
+	switch name {
+	case "urlParseFails":
+		_, err := url.Parse(args[0])
+		return err != nil
+	case "match":
+		ok, _ := filepath.Match(args[0], args[1])
+		return ok
+	case "matchBadPattern":
+		_, err := filepath.Match(args[0], "")
+		return err != nil
+	case "b64Decodes":
+		_, err := base64.StdEncoding.DecodeString(args[0])
+		return err == nil
+	case "b64Is16Bytes":
+		v, err := base64.StdEncoding.DecodeString(args[0])
+		return err == nil && len(v) == 16
+	}
+	panic("vUFBool: unknown function " + name)
 }
 
 func vBool(tag string) bool  { return vNext(tag)&1 != 0 }
